@@ -444,7 +444,7 @@ class Registry(Profile):
     prop = "C14"
     name = "registry"
     design_ref = "DESIGN.md section 5, C14"
-    fault_kinds = ("clk", "raw_append", "forget")
+    fault_kinds = ("clk", "raw_append", "forget", "x_replace_nonchild", "x_replace_mismatch", "x_remove_nonchild")
     keep = ("new",)
     own_kinds = frozenset(["new", "copy", "delete", "replace_child", "import_xml", "restart", "prune", "expand",
                            "remove_child", "remove_children", "forget"])
@@ -458,7 +458,8 @@ class Registry(Profile):
         return {"new": 12, "copy": 6, "add_child": 10, "remove_child": 4, "remove_children": 1,
                 "replace_child": 6, "delete": 8, "clk": 8, "restart": 1.5, "import_xml": 2,
                 "query": 2, "shift": 1, "set_content": 0.5, "add_ns": 0.5,
-                "eml_seed": 1.5, "prune": 2, "expand": 2, "raw_append": 0.8, "forget": 0.8}
+                "eml_seed": 1.5, "prune": 2, "expand": 2, "raw_append": 0.8, "forget": 0.8,
+                "x_replace_nonchild": 1, "x_replace_mismatch": 0.7, "x_remove_nonchild": 0.5}
 
     def tune(self, cfg, rng):
         cfg["nsess"] = rng.choice([2, 2, 3, 4])
@@ -596,6 +597,8 @@ class Registry(Profile):
                 bump(P, "forget_tree_gt1")
         elif k == "raw_append" and c.out.ok:
             bump(P, "fault:child_list_edited_through_property")
+        elif k.startswith("x_"):
+            bump(P, "fault:illegal_edit")
         if k == "delete" and c.exp.judged and c.exp.notes.get("partial"):
             bump(P, "fault:partial_unregister")
         cl = c.W.clock
